@@ -242,6 +242,27 @@ def sample_classes(ctx):
         detail = f"exports {ks}"
     else:
         raise AnalysisError(f"{f.site()}: unrecognised export form `{U(r[0].value) if r else None}`")
+    if len(r) == 1 and U(r[0].value) in ("self.__dict__", "vars(self)", "dict(self.__dict__)", "dict(vars(self))"):
+        # the instance dictionary is the export: it must hold the dataclass fields and nothing else, at any time.  A cached_property
+        # stores its value in that dictionary on first use; so does any `self.x = ..` outside the constructor.
+        extra = []
+        for b in cn.body:
+            if isinstance(b, ast.FunctionDef):
+                for dco in b.decorator_list:
+                    if U(dco).split(".")[-1].split("(")[0] in ("cached_property",):
+                        extra.append(f"@{U(dco)} {b.name}")
+                if b.name not in ("__init__", "__post_init__"):
+                    for x in ast.walk(b):
+                        if isinstance(x, (ast.Assign, ast.AugAssign, ast.AnnAssign)):
+                            for t_ in (x.targets if isinstance(x, ast.Assign) else [x.target]):
+                                if isinstance(t_, ast.Attribute) and U(t_.value) == "self":
+                                    extra.append(f"{b.name}: self.{t_.attr} = ..")
+                        if isinstance(x, ast.Call) and U(x.func) in ("setattr", "object.__setattr__") and x.args and U(x.args[0]) == "self":
+                            extra.append(f"{b.name}: setattr(self, ..)")
+        ctx.check("R1", f"{cq.split('.', 1)[1]}::instance-dict-is-the-field-set", not extra,
+                  "nothing adds entries to the instance dictionary that private_parameters_dict exports",
+                  f"private_parameters_dict exports `self.__dict__`, but {extra} add(s) entries to it at run time: a collection saved after such a call stores an extra "
+                  f"key and cannot be loaded back (from_dicts passes every key to the constructor)")
     ctor_ok = len(rr) == 1 and U(rr[0].value).replace(" ", "") == f"cls(**{pp})"
     lossy = common.lossy_transformers(f.node) + common.lossy_transformers(fd.node)
     ctx.check("R1", f"{cq.split('.', 1)[1]}::fields<->private_parameters_dict", keys_ok and ctor_ok and not lossy,
